@@ -220,9 +220,26 @@ class _Processor:
             self._processed += 1
             return
 
+        # a message which goes back to the queue (retry, recurring job) can be executed again
+        # right away: the result of this execution has to be stored before that, otherwise
+        # a late store would overwrite the result of the newer execution
+        store_first = (
+            not result.success and parameters.retries.already_tried < parameters.retries.max_amount
+        ) or (parameters.delay.defer_by is not None or parameters.delay.cron is not None)
+        if store_first:
+            try:
+                await self.set_result_bucket(parameters.result, result)
+            except Exception:  # noqa: BLE001
+                # failing to store the result must not change what happens to the message
+                logger.exception(
+                    "Can't store the result of message {message_id}.",
+                    extra={"message_id": key.id_},
+                )
+
         await self.report_to_broker(actor, key, payload, parameters, result)
         self._processed += 1
-        await self.set_result_bucket(parameters.result, result)
+        if not store_first:
+            await self.set_result_bucket(parameters.result, result)
 
     @property
     def processed(self) -> int:
